@@ -26,14 +26,9 @@ _UI_ONLY_KEYS = {"preprocessor_view"}
 
 
 def _strip_ui_only(obj: Any) -> Any:
+    """Drop UI-only entries of the metadata mapping itself (not user-named keys below it)."""
     if isinstance(obj, dict):
-        return {
-            key: _strip_ui_only(value)
-            for key, value in obj.items()
-            if key not in _UI_ONLY_KEYS
-        }
-    if isinstance(obj, list):
-        return [_strip_ui_only(value) for value in obj]
+        return {key: value for key, value in obj.items() if key not in _UI_ONLY_KEYS}
     return obj
 
 
@@ -128,14 +123,21 @@ def compute_node_semantic_id(preproc_meta: Dict[str, Any]) -> str:
 
     payload = _strip_ui_only(preproc_meta)
 
-    def _canonicalize(obj: Any) -> Any:
-        if isinstance(obj, dict):
-            return {k: _canonicalize(v) for k, v in obj.items() if k != "expr"}
-        if isinstance(obj, list):
-            return [_canonicalize(v) for v in obj]
-        return obj
-
-    canonical = _canonicalize(payload)
+    # Raw expression text is cosmetic (the signature carries the meaning): drop the
+    # ``expr`` field of each ``param_expressions`` entry, and only there -- variables
+    # and swept parameters are user-named and may themselves be called ``expr``.
+    canonical = payload
+    exprs = payload.get("param_expressions") if isinstance(payload, dict) else None
+    if isinstance(exprs, dict):
+        canonical = dict(payload)
+        canonical["param_expressions"] = {
+            name: (
+                {k: v for k, v in info.items() if k != "expr"}
+                if isinstance(info, dict)
+                else info
+            )
+            for name, info in exprs.items()
+        }
     payload = json.dumps(canonical, sort_keys=True, separators=(",", ":"))
     return hashlib.sha256(
         f"semantiva:node-sem-v1:{payload}".encode("utf-8")
